@@ -1,9 +1,16 @@
 // C10 harness (runtime part of the property): real pthreads run generated allocation scripts through the overloaded
 // new / new[] / malloc / realloc / free while the thread-safe overloads are on, with pre-emption points injected around
-// the detector's lock through the PlatformSpecificMutexLock/Unlock seams; after join the detector's table is compared
-// with what the threads still hold.  Misuse scenarios run in a forked child so that a lock left held is observed as
-// ":hang" instead of wedging the harness.  All bookkeeping uses libc malloc and pthreads directly, so nothing the
-// harness does between the two snapshots goes through the tracked operators.
+// the detector's lock through the PlatformSpecificMutexLock/Unlock seams.  Thread 0 is the thread that runs the tests
+// (a real TestRegistry / TestResult / UtestShell::runOneTest, the real MemoryLeakWarningReporter); its script is cut into
+// tests at ":t" and may misuse the allocator (overrun, mismatched family, pointer never allocated); the other threads run
+// their scripts concurrently.  After join the detector's table is compared with what the threads still hold.
+// Every scenario runs in a forked child with a deadline, so a lock left held is observed as ":hang" instead of wedging
+// the harness; a sanitizer report in the child kills the harness with the child's exit code (the runner then records
+// "!CRASH <summary>").  All bookkeeping uses libc malloc and pthreads directly: nothing the harness does between the two
+// snapshots goes through the tracked operators.
+//
+// scenario:  <seed> <outalloc 0|1> <nthreads> { <nops> op*nops }*nthreads           (see ocaml/c10_driver.ml)
+// observation:  :ok <ntests> verdict* <wfail> <adv> <distinct> <foreign> <rest> <n> (<thread> <slot> <size>)*n  |  :hang
 #include "hlib.h"
 #include <new>
 #include <pthread.h>
@@ -15,9 +22,11 @@
 #define protected public
 #include "CppUTest/TestHarness.h"
 #include "CppUTest/TestHarness_c.h"
+#include "CppUTest/TestRegistry.h"
+#include "CppUTest/TestOutput.h"
+#include "CppUTest/TestResult.h"
 #include "CppUTest/MemoryLeakDetector.h"
 #include "CppUTest/MemoryLeakWarningPlugin.h"
-#include "CppUTest/TestTestingFixture.h"
 #include "CppUTest/PlatformSpecificFunctions.h"
 #undef private
 #undef protected
@@ -31,8 +40,8 @@
 using namespace hl;
 
 // The C wrapper cpputest_malloc_location counts calls in a file-static int outside the detector's lock; that counter is
-// not detector state and not part of the property (DESIGN C10).  Only that global is excluded from TSan's reports.
-extern "C" const char* __tsan_default_suppressions() { return "race:malloc_count\nrace:malloc_out_of_memory_counter\n"; }
+// not detector state and not part of the property (DESIGN C10).  Only those two globals are excluded from TSan's reports.
+extern "C" const char* __tsan_default_suppressions() { return "race:^malloc_count$\nrace:^malloc_out_of_memory_counter$\nrace:^countdown$\n"; }
 
 // ---------------------------------------------------------------- pre-emption injected around lock / unlock
 static void (*origLock)(PlatformSpecificMutex);
@@ -51,14 +60,16 @@ static void injLock(PlatformSpecificMutex m) { perturb(); origLock(m); perturb()
 static void injUnlock(PlatformSpecificMutex m) { perturb(); origUnlock(m); perturb(); }
 
 // ---------------------------------------------------------------- scripts
-struct Op { char kind; unsigned k; size_t sz; int fam; };
-struct Blk { void* p; size_t sz; int fam; };
-struct Thr { unsigned tid; Op* ops; size_t nops; Blk* tbl; size_t ntbl; unsigned long long seed; pthread_t th; };
+struct Op { char kind; unsigned k; size_t sz; int e; };
+struct Blk { void* p; size_t sz; int fam; };       // fam: 0 new, 1 new[], 2 malloc
+struct Thr { unsigned tid; Op* ops; size_t nops; Blk* tbl; size_t ntbl; unsigned long long seed; pthread_t th; size_t pc; };
 static const char* FILE_ = "c10_script.cpp";
+static char neverAllocated[64];
+static volatile int startFlag;
 
-static void* allocFam(int fam, size_t sz)
+static void* allocEntry(int e, size_t sz)
 {
-    switch (fam) {
+    switch (e) {
     case 0: return ::operator new(sz);
     case 1: return ::operator new(sz, std::nothrow);
     case 2: return ::operator new(sz, FILE_, (size_t) 7);
@@ -68,25 +79,83 @@ static void* allocFam(int fam, size_t sz)
     default: return cpputest_malloc_location(sz, FILE_, 9);
     }
 }
-static void freeFam(int fam, void* p)
+static int famOfAllocEntry(int e) { return e <= 2 ? 0 : e <= 5 ? 1 : 2; }
+static void releaseEntry(int e, void* p)
 {
-    if (fam <= 2) ::operator delete(p);
-    else if (fam <= 5) ::operator delete[](p);
-    else cpputest_free_location(p, FILE_, 10);
+    if (e == 0) ::operator delete(p);
+    else if (e == 1) ::operator delete[](p);
+    else if (e == 2) cpputest_free_location(p, FILE_, 10);
+    else (void) cpputest_realloc_location(p, 8, FILE_, 12);
+}
+// runs the thread's operations from t->pc up to (not including) the next ":t"; a misuse on the test thread leaves by
+// longjmp from inside the call, so every slot is updated BEFORE the call that may not return
+static void runOps(Thr* t)
+{
+    while (t->pc < t->nops) {
+        Op& o = t->ops[t->pc];
+        if (o.kind == 't') return;
+        t->pc++;
+        Blk& b = t->tbl[o.k];
+        if (o.kind == 'a') { b.p = allocEntry(o.e, o.sz); b.sz = o.sz; b.fam = famOfAllocEntry(o.e); if (b.p) memset(b.p, 0x5a, o.sz); }
+        else if (o.kind == 'f') { void* p = b.p; b.p = nullptr; releaseEntry(o.e, p); }
+        else if (o.kind == 'r') { void* p = b.p; b.p = nullptr; void* q = cpputest_realloc_location(p, o.sz, FILE_, 11); b.p = q; b.sz = o.sz; b.fam = 2; }
+        else if (o.kind == 'o') { if (b.p) ((char*) b.p)[b.sz] = 'x'; }
+        else if (o.kind == 'w') releaseEntry(o.e, neverAllocated + 16);
+    }
 }
 static void* threadMain(void* a)
 {
     Thr* t = (Thr*) a;
     injState = t->seed | 1;
-    for (size_t i = 0; i < t->nops; i++) {
-        Op& o = t->ops[i];
-        Blk& b = t->tbl[o.k];
-        if (o.kind == 'a') { b.p = allocFam(o.fam, o.sz); b.sz = o.sz; b.fam = o.fam; if (b.p) memset(b.p, 0x5a, o.sz); }
-        else if (o.kind == 'f') { freeFam(b.fam, b.p); b.p = nullptr; }
-        else { b.p = cpputest_realloc_location(b.p, o.sz, FILE_, 11); b.sz = o.sz; }
-    }
+    while (!__atomic_load_n(&startFlag, __ATOMIC_ACQUIRE)) sched_yield();
+    runOps(t);
     return nullptr;
 }
+
+// ---------------------------------------------------------------- the test thread: real registry, shells, result, reporter
+static Thr* thr0;
+static bool dryRun;
+static int outAlloc;                 // the output allocates while printing a failure (as JUnitTestOutput does)
+static unsigned long outAllocs;
+static pthread_t mainThread;
+static volatile int inTest;
+static unsigned long strayFails;     // reports raised where no test can be failed: worker threads, cleanup
+
+class ScriptTest : public Utest
+{
+public:
+    virtual void testBody() { if (!dryRun) runOps(thr0); }
+};
+class ScriptShell : public UtestShell
+{
+public:
+    ScriptTest test_;
+    ScriptShell() : UtestShell("C10", "script", "c10_script.cpp", 1) {}
+    virtual Utest* createTest() { return &test_; }          // no allocation by the framework itself during the run
+    virtual void destroyTest(Utest*) {}
+};
+class QuietOutput : public TestOutput
+{
+public:
+    virtual void printBuffer(const char*) {}
+    virtual void flush() {}
+    virtual void printFailure(const TestFailure&)
+    {
+        if (outAlloc && !dryRun) { char* p = new char[24]; p[0] = 1; delete[] p; outAllocs++; }
+    }
+};
+// reports raised on the thread that runs the tests go to the real reporter (it fails the running test and leaves it);
+// a report anywhere else is a block that was released without being outstanding: counted, the detector carries on
+class RoutingReporter : public MemoryLeakFailure
+{
+public:
+    MemoryLeakFailure* real_;
+    virtual void fail(char* s)
+    {
+        if (inTest && pthread_equal(pthread_self(), mainThread)) real_->fail(s);
+        else __atomic_add_fetch(&strayFails, 1, __ATOMIC_RELAXED);
+    }
+};
 
 struct Ent { void* p; unsigned tid; unsigned k; size_t sz; unsigned number; };
 static int cmpPtr(const void* a, const void* b) { const Ent* x = (const Ent*) a; const Ent* y = (const Ent*) b; return x->p < y->p ? -1 : x->p > y->p ? 1 : 0; }
@@ -94,136 +163,152 @@ static int cmpOut(const void* a, const void* b)
 {
     const Ent* x = (const Ent*) a; const Ent* y = (const Ent*) b;
     if (x->tid != y->tid) return x->tid < y->tid ? -1 : 1;
-    return x->number < y->number ? -1 : x->number > y->number ? 1 : 0;
+    return x->k < y->k ? -1 : x->k > y->k ? 1 : 0;
 }
 
-static void threadScenario(Toks& t)
+static void scenarioChild(Toks& t, int wfd)
 {
-    unsigned long long inj = t.u();
+    unsigned long long seed = t.u();
+    outAlloc = t.n();
     unsigned n = (unsigned) t.u();
+    if (n == 0 || n > 64) _exit(3);
     Thr* thr = (Thr*) calloc(n, sizeof(Thr));
-    size_t live = 0;
+    size_t live = 0, ntests = 1;
     for (unsigned i = 0; i < n; i++) {
         thr[i].tid = i; thr[i].nops = (size_t) t.u(); thr[i].ops = (Op*) calloc(thr[i].nops + 1, sizeof(Op));
-        thr[i].seed = inj * 0x9e3779b97f4a7c15ULL + i * 0xbf58476d1ce4e5b9ULL + 1;
+        thr[i].seed = seed * 0x9e3779b97f4a7c15ULL + i * 0xbf58476d1ce4e5b9ULL + 1;
         unsigned maxk = 0;
         for (size_t j = 0; j < thr[i].nops; j++) {
             Op& o = thr[i].ops[j];
             std::string k = t.next();
-            if (k == ":a") { o.kind = 'a'; o.k = (unsigned) t.u(); o.sz = (size_t) t.u(); o.fam = t.n(); }
-            else if (k == ":f") { o.kind = 'f'; o.k = (unsigned) t.u(); }
+            if (k == ":a") { o.kind = 'a'; o.k = (unsigned) t.u(); o.sz = (size_t) t.u(); o.e = t.n(); }
+            else if (k == ":f") { o.kind = 'f'; o.k = (unsigned) t.u(); o.e = t.n(); }
             else if (k == ":r") { o.kind = 'r'; o.k = (unsigned) t.u(); o.sz = (size_t) t.u(); }
-            else { fprintf(stderr, "bad op %s\n", k.c_str()); exit(3); }
+            else if (k == ":o") { o.kind = 'o'; o.k = (unsigned) t.u(); }
+            else if (k == ":w") { o.kind = 'w'; o.e = t.n(); }
+            else if (k == ":t") { o.kind = 't'; if (i == 0) ntests++; }
+            else { fprintf(stderr, "bad op %s\n", k.c_str()); _exit(3); }
             if (o.k > maxk) maxk = o.k;
         }
         thr[i].ntbl = maxk + 1; thr[i].tbl = (Blk*) calloc(thr[i].ntbl, sizeof(Blk));
         live += thr[i].ntbl;
     }
-    injMode = inj == 0 ? 0 : (inj & 1) ? 2 : 1;
+    thr0 = &thr[0];
+    injMode = seed == 0 ? 0 : (seed & 1) ? 2 : 1;
+    injState = thr[0].seed | 1;
+    mainThread = pthread_self();
+
     MemoryLeakDetector* d = MemoryLeakWarningPlugin::getGlobalDetector();
+    RoutingReporter* rr = new RoutingReporter; rr->real_ = d->reporter_; d->reporter_ = rr;
+    QuietOutput* out = new QuietOutput;
+    TestResult* result = new TestResult(*out);
+    TestRegistry* reg = new TestRegistry;
+    ScriptShell** shells = (ScriptShell**) calloc(ntests, sizeof(ScriptShell*));
+    for (size_t i = 0; i < ntests; i++) shells[i] = new ScriptShell;
+    for (size_t i = ntests; i-- > 0;) reg->addTest(shells[i]);      // addTest prepends: add the last test first
+
     MemoryLeakWarningPlugin::turnOnThreadSafeNewDeleteOverloads();
+    // what the framework itself allocates for a run of ntests empty tests (subtracted below)
+    unsigned s0 = d->getCurrentAllocationNumber(); size_t l0 = d->totalMemoryLeaks(mem_leak_period_all);
+    dryRun = true; reg->runAllTests(*result); dryRun = false;
+    unsigned dryAdv = d->getCurrentAllocationNumber() - s0; size_t dryLeaks = d->totalMemoryLeaks(mem_leak_period_all) - l0;
+
     size_t n0 = d->totalMemoryLeaks(mem_leak_period_all);
-    for (unsigned i = 0; i < n; i++) pthread_create(&thr[i].th, nullptr, threadMain, &thr[i]);
-    for (unsigned i = 0; i < n; i++) pthread_join(thr[i].th, nullptr);
+    unsigned seq0 = d->getCurrentAllocationNumber();
+    for (unsigned i = 1; i < n; i++) pthread_create(&thr[i].th, nullptr, threadMain, &thr[i]);
+    __atomic_store_n(&startFlag, 1, __ATOMIC_RELEASE);
+    // thread 0: one registered test per segment of its script; a segment ends at ":t"
+    inTest = 1;
+    {
+        // runAllTests runs the shells in order; each body continues the script where the previous test stopped
+        // (after a misuse the rest of the segment is skipped: advance pc to the next ":t")
+        struct Adv { static void toNext(Thr* t) { while (t->pc < t->nops && t->ops[t->pc].kind != 't') t->pc++; if (t->pc < t->nops) t->pc++; } };
+        for (UtestShell* sh = reg->tests_; sh; sh = sh->getNext()) {
+            result->countTest();
+            result->currentTestStarted(sh);
+            sh->runOneTest(reg->firstPlugin_, *result);
+            result->currentTestEnded(sh);
+            Adv::toNext(thr0);
+        }
+    }
+    inTest = 0;
+    for (unsigned i = 1; i < n; i++) pthread_join(thr[i].th, nullptr);
     size_t n1 = d->totalMemoryLeaks(mem_leak_period_all);
+    unsigned seq1 = d->getCurrentAllocationNumber();
+
     // what the threads still hold, by address
     Ent* held = (Ent*) calloc(live + 1, sizeof(Ent)); size_t nheld = 0;
     for (unsigned i = 0; i < n; i++) for (size_t k = 0; k < thr[i].ntbl; k++) if (thr[i].tbl[k].p) { Ent e = { thr[i].tbl[k].p, i, (unsigned) k, thr[i].tbl[k].sz, 0 }; held[nheld++] = e; }
     qsort(held, nheld, sizeof(Ent), cmpPtr);
     // the detector's entries
-    Ent* out = (Ent*) calloc(n1 + 1, sizeof(Ent)); size_t nout = 0, unknown = 0;
+    Ent* ents = (Ent*) calloc(n1 + 1, sizeof(Ent)); size_t nents = 0, foreign = 0;
     for (MemoryLeakDetectorNode* nd = d->memoryTable_.getFirstLeak(mem_leak_period_all); nd; nd = d->memoryTable_.getNextLeak(nd, mem_leak_period_all)) {
         Ent key = { nd->memory_, 0, 0, 0, 0 };
         Ent* h = (Ent*) bsearch(&key, held, nheld, sizeof(Ent), cmpPtr);
-        if (!h) { unknown++; continue; }
-        if (nout <= n1) { Ent e = { nd->memory_, h->tid, h->k, nd->size_, nd->number_ }; out[nout++] = e; }
+        if (!h) { foreign++; continue; }
+        if (nents <= n1) { Ent e = { nd->memory_, h->tid, h->k, nd->size_, nd->number_ }; ents[nents++] = e; }
     }
-    qsort(out, nout, sizeof(Ent), cmpOut);
-    int uniq = 1;
-    for (size_t i = 0; i + 1 < nout; i++) for (size_t j = i + 1; j < nout; j++) if (out[i].number == out[j].number) uniq = 0;
+    qsort(ents, nents, sizeof(Ent), cmpOut);
+    int distinct = 1;
+    for (size_t i = 0; i < nents; i++) {
+        if (ents[i].number < seq0 || ents[i].number >= seq1) distinct = 0;
+        for (size_t j = i + 1; j < nents; j++) if (ents[i].number == ents[j].number) distinct = 0;
+    }
     // release everything that is still held (through the matching entry point), then back to the default overloads
-    for (unsigned i = 0; i < n; i++) for (size_t k = 0; k < thr[i].ntbl; k++) if (thr[i].tbl[k].p) freeFam(thr[i].tbl[k].fam, thr[i].tbl[k].p);
+    for (unsigned i = 0; i < n; i++) for (size_t k = 0; k < thr[i].ntbl; k++) if (thr[i].tbl[k].p) { void* p = thr[i].tbl[k].p; thr[i].tbl[k].p = nullptr; releaseEntry(thr[i].tbl[k].fam, p); }
     size_t n2 = d->totalMemoryLeaks(mem_leak_period_all);
     MemoryLeakWarningPlugin::turnOnDefaultNotThreadSafeNewDeleteOverloads();
-    // observation: outstanding delta, foreign entries, distinct sequence numbers, everything released again, entries
-    printf("%llx %llx %x %llx %llx", (unsigned long long) (n1 - n0), (unsigned long long) (unknown - n0), uniq, (unsigned long long) (n2 - n0), (unsigned long long) nout);
-    for (size_t i = 0; i < nout; i++) printf(" %x %x %llx", out[i].tid, out[i].k, (unsigned long long) out[i].sz);
-    printf("\n"); fflush(stdout);
-    for (unsigned i = 0; i < n; i++) { free(thr[i].ops); free(thr[i].tbl); }
-    free(thr); free(held); free(out);
-}
 
-// ---------------------------------------------------------------- misuse on the test's thread
-static int gEntry, gKind; static volatile int gReached;
-static char notAllocated[32];
-static void misuseBody()
-{
-    // entry: 0 delete, 1 delete[], 2 free, 3 realloc; kind: 0 overrun, 1 never allocated, 2 allocated by another family
-    int fam = gEntry == 0 ? 0 : gEntry == 1 ? 3 : 6;
-    if (gKind == 2) fam = gEntry == 0 ? 3 : gEntry == 1 ? 0 : gEntry == 2 ? 0 : 3;
-    char* p = notAllocated + 8;
-    if (gKind != 1) { p = (char*) allocFam(fam, 4); if (gKind == 0) p[4] = 'x'; }
-    if (gEntry == 0) ::operator delete(p);
-    else if (gEntry == 1) ::operator delete[](p);
-    else if (gEntry == 2) cpputest_free_location(p, FILE_, 20);
-    else cpputest_realloc_location(p, 8, FILE_, 21);
-    gReached = 1;
-}
-static void* afterThread(void*) { char* q = (char*) allocFam(3, 4); freeFam(3, q); void* m = allocFam(6, 4); freeFam(6, m); return nullptr; }
-
-static void misuseChild(int wfd)
-{
-    MemoryLeakWarningPlugin::getGlobalDetector();
-    MemoryLeakWarningPlugin::turnOnThreadSafeNewDeleteOverloads();
-    size_t fails;
-    {
-        TestTestingFixture fx;
-        fx.setTestFunction(misuseBody);
-        fx.runAllTests();
-        fails = fx.getFailureCount();
-    }
-    // the run continues: the next allocations on this thread and on another one complete
-    char* q = (char*) allocFam(3, 4); freeFam(3, q);
-    pthread_t th; pthread_create(&th, nullptr, afterThread, nullptr); pthread_join(th, nullptr);
-    MemoryLeakWarningPlugin::turnOnDefaultNotThreadSafeNewDeleteOverloads();
-    char buf[64]; int len = snprintf(buf, sizeof buf, "%llx %x :ok\n", (unsigned long long) fails, (unsigned) gReached);
-    if (write(wfd, buf, (size_t) len) < 0) _exit(4);
+    std::string o = ":ok " + hx(ntests);
+    for (size_t i = 0; i < ntests; i++) o += shells[i]->hasFailed() ? " 1" : " 0";
+    o += " " + hx(strayFails);
+    o += " " + hx((unsigned long long) (seq1 - seq0) - dryAdv - outAllocs);
+    o += " " + hx((unsigned long long) distinct);
+    o += " " + hx((unsigned long long) (foreign - n0 - dryLeaks));
+    o += " " + hx((unsigned long long) (n2 - n0 - dryLeaks));
+    o += " " + hx(nents);
+    for (size_t i = 0; i < nents; i++) o += " " + hx(ents[i].tid) + " " + hx(ents[i].k) + " " + hx(ents[i].sz);
+    o += "\n";
+    size_t off = 0;
+    while (off < o.size()) { ssize_t w = write(wfd, o.data() + off, o.size() - off); if (w <= 0) _exit(4); off += (size_t) w; }
     _exit(0);
 }
-static void misuseScenario(Toks& t)
+
+static void scenario(Toks& t, double deadline)
 {
-    gEntry = t.n(); gKind = t.n(); gReached = 0;
-    double deadline = t.end() ? 10.0 : (double) t.u();
     int fd[2]; if (pipe(fd) != 0) { perror("pipe"); exit(3); }
     fflush(stdout); fflush(stderr);
     pid_t pid = fork();
-    if (pid == 0) { close(fd[0]); injMode = 1; injState = 12345; misuseChild(fd[1]); }
+    if (pid < 0) { perror("fork"); exit(3); }
+    if (pid == 0) { close(fd[0]); scenarioChild(t, fd[1]); }
     close(fd[1]);
+    // read until EOF (the observation can be longer than a pipe buffer) while watching the deadline
+    std::string got; char buf[4096];
     int status = 0; bool done = false;
-    for (int i = 0; i < (int) (deadline * 100); i++) {
+    fcntl(fd[0], F_SETFL, O_NONBLOCK);
+    for (int i = 0; i < (int) (deadline * 200); i++) {
+        for (;;) { ssize_t len = read(fd[0], buf, sizeof buf); if (len > 0) got.append(buf, (size_t) len); else break; }
         if (waitpid(pid, &status, WNOHANG) == pid) { done = true; break; }
-        usleep(10000);
+        usleep(5000);
     }
     if (!done) { kill(pid, SIGKILL); waitpid(pid, &status, 0); close(fd[0]); printf(":hang\n"); fflush(stdout); return; }
-    char buf[64]; ssize_t len = read(fd[0], buf, sizeof buf - 1); close(fd[0]);
-    if (len > 0 && WIFEXITED(status) && WEXITSTATUS(status) == 0) { buf[len] = 0; fputs(buf, stdout); }
-    else if (WIFSIGNALED(status)) printf(":died sig %x\n", WTERMSIG(status));
-    else printf(":died exit %x\n", WEXITSTATUS(status));
-    fflush(stdout);
+    for (;;) { ssize_t len = read(fd[0], buf, sizeof buf); if (len > 0) got.append(buf, (size_t) len); else break; }
+    close(fd[0]);
+    if (WIFEXITED(status) && WEXITSTATUS(status) == 0 && !got.empty() && got[got.size() - 1] == '\n') { fputs(got.c_str(), stdout); fflush(stdout); return; }
+    // the child died (sanitizer report, signal): die the same way, the child's report is already on stderr
+    fprintf(stderr, "C10 harness: scenario child %s %d\n", WIFSIGNALED(status) ? "killed by signal" : "exited with", WIFSIGNALED(status) ? WTERMSIG(status) : WEXITSTATUS(status));
+    if (WIFSIGNALED(status)) { signal(WTERMSIG(status), SIG_DFL); raise(WTERMSIG(status)); }
+    _exit(WEXITSTATUS(status) ? WEXITSTATUS(status) : 5);
 }
 
-int main()
+int main(int argc, char** argv)
 {
     setvbuf(stdout, NULL, _IOLBF, 0);
+    double deadline = argc > 1 ? atof(argv[1]) : 10.0;
     MemoryLeakWarningPlugin::getGlobalDetector();            // created before any thread exists
     origLock = PlatformSpecificMutexLock; origUnlock = PlatformSpecificMutexUnlock;
     PlatformSpecificMutexLock = injLock; PlatformSpecificMutexUnlock = injUnlock;
     Toks t;
-    while (readline(t)) {
-        std::string kind = t.next();
-        if (kind == ":T") threadScenario(t);
-        else if (kind == ":M") misuseScenario(t);
-        else { fprintf(stderr, "bad scenario kind %s\n", kind.c_str()); exit(3); }
-    }
+    while (readline(t)) scenario(t, deadline);
     return 0;
 }
